@@ -305,11 +305,12 @@ def run_case(case, acc):
             check_seq(xs, acc, ['min', 'max'], xs, out, seen)
         acc.nontrivial.add(fast_hash(('huge', case['which'], tuple(case['seq']))))
     elif fam == 'empty':
-        for op, want in (('sum', 0.0), ('min', None), ('max', None), ('variance', 0.0), ('stddev', 0.0), ('fvariance', 0.0), ('fstddev', 0.0)):
+        # length 0 is quantified for sum, min, max and variance only; an empty min / max has no value: None or nothing
+        for op, want in (('sum', 0.0), ('min', None), ('max', None), ('variance', 0.0)):
             for runner in (run_plain, run_mux):
                 r = runner(op, True, [])
                 acc.evals += 1
-                if r.error is not None or r.items != [want]:
+                if r.error is not None or (r.items != [want] and not (want is None and r.items == [])):
                     _rep(out, seen, op, 'empty-sequence-reduce-not-%r' % (want,), {'emitted': r.items, 'error': repr(r.error)})
                 s = runner(op, False, [])
                 acc.evals += 1
